@@ -464,11 +464,13 @@ class Plan(object):
     pass
 
 
-def gen_plan(rng, nleaves=None, nfam=None, fancy_names=False, use_internal=None, max_leaves=10):
+def gen_plan(rng, nleaves=None, nfam=None, fancy_names=False, use_internal=None, max_leaves=10, dup_heavy=False):
     pl = Plan()
     if nleaves is None:
         nleaves = rng.randint(2, max_leaves)
     shape = rng.choice([None, None, None, None, 'caterpillar', 'balanced', 'star'])
+    if dup_heavy:
+        shape = rng.choice(['balanced', 'balanced', None])
     pl.tree = gen_tree(rng, nleaves, max_arity=rng.choice([2, 3, 4, 5]), fancy_names=fancy_names, shape=shape)
     pl.use_internal = (rng.random() < 0.6) if use_internal is None else use_internal
     pl.named = pl.tree if pl.use_internal else synth_names(pl.tree)
@@ -479,8 +481,14 @@ def gen_plan(rng, nleaves=None, nfam=None, fancy_names=False, use_internal=None,
     pl.hists = []
     internals = [n for n in pl.named.nodes() if n.kids]
     p_loss = rng.choice([0.1, 0.25, 0.4])
-    p_dup = rng.choice([0.1, 0.25, 0.4])
+    p_dup = rng.choice([0.1, 0.25, 0.4, 0.75])
+    if p_dup > 0.5:
+        # duplication-heavy families: HOGs all of whose children are copies, several duplications under one HOG
+        p_loss = min(p_loss, 0.1)
     p_narrow = rng.choice([0.0, 0.0, 0.3, 0.6])
+    if dup_heavy:
+        # nearly every branch duplicates and nothing is lost: HOGs with several duplications and no plain child
+        p_loss, p_dup, p_narrow = 0.0, 0.85, 0.0
     for _ in range(nfam):
         root = rng.choice(internals) if rng.random() < 0.5 else pl.named
         h = gen_history(rng, root, ids, p_loss, p_dup, True, genes, p_narrow)
@@ -564,9 +572,9 @@ def spell_plan(rng, pl, explicit=False, tag='main', group_ids=None, p_reuse_ids=
 
 
 def gen_case(rng, nleaves=None, nfam=None, explicit=False, fancy_names=False, use_internal=None,
-             max_leaves=10, tag='main', **spell_kw):
+             max_leaves=10, tag='main', dup_heavy=False, **spell_kw):
     pl = gen_plan(rng, nleaves=nleaves, nfam=nfam, fancy_names=fancy_names, use_internal=use_internal,
-                  max_leaves=max_leaves)
+                  max_leaves=max_leaves, dup_heavy=dup_heavy)
     return spell_plan(rng, pl, explicit=explicit, tag=tag, **spell_kw)
 
 
